@@ -249,4 +249,4 @@ def manifest():
     }
 
 NOT_APPLICABLE = {}
-HOOK_COMMITS = ["6403eeb", "060055a", "1defb0d", "133ca4e", "61475be"]
+HOOK_COMMITS = ["6403eeb", "060055a", "1defb0d", "133ca4e", "61475be", "bf28053", "4796a39"]
